@@ -157,6 +157,14 @@ pub fn gen_allow_unknown(ctx: &mut Ctx) -> Option<FCase> {
     if ctx.flag() {
         attrs.push(Instr::new("where_clause", None, "T: Clone"));
     }
+    // the o2o instructions of the type as bare attributes, or each in a `#[o2o(..)]` list of its own (what one list
+    // says about unknown attributes must hold across the lists of the type - seed C18-08)
+    if ctx.flag() {
+        for a in attrs.iter_mut() {
+            a.form = crate::item::Form::O2o;
+        }
+        tags.push("type-instructions=o2o-lists".into());
+    }
     // colliding bare attribute at type level
     let tc = ctx.choose(type_collide.len() + 1);
     if tc > 0 {
